@@ -251,8 +251,9 @@ pub fn judge(case: &Case) -> Verdict {
     };
     let modes: Vec<ColMode> = vec![];
     if has_window(&case.q) {
-        // which rows a window keeps may depend on scan order; sizes must agree
-        if rows_p.rows.len() != rows_l.rows.len() {
+        // which rows a window keeps may depend on scan order; sizes must agree — unless the
+        // window sits in a WITH, where later clauses expand whichever rows it kept
+        if !c02::has_intermediate_window(&case.q) && rows_p.rows.len() != rows_l.rows.len() {
             return Verdict::Violation(format!("row counts differ: {} with parameters, {} with literals\n  param query: {text_p}\n  params: {:?}\n  literal query: {text_l}", rows_p.rows.len(), rows_l.rows.len(), case.params));
         }
     } else if case.ordered && rows_p.rows.iter().map(|r| r.iter().map(|v| v.canon()).collect::<Vec<_>>()).ne(rows_l.rows.iter().map(|r| r.iter().map(|v| v.canon()).collect::<Vec<_>>())) {
